@@ -38,9 +38,6 @@ Proof. exact (SetNX_equiv F ff fpos). Qed.
 Theorem C42_SetXX_equiv : forall key v exp, same (MSetXX key v exp).
 Proof. exact (SetXX_equiv F ff fpos). Qed.
 
-Theorem C42_GetEx_equiv : forall key exp, same (MGetEx key exp).
-Proof. exact (GetEx_equiv F ff fpos). Qed.
-
 Theorem C42_Expire_equiv : forall m key d, same (MExpire m key d).
 Proof. exact (Expire_equiv F ff fpos). Qed.
 
@@ -67,15 +64,6 @@ Proof. exact (BitPos_equiv F ff fpos). Qed.
 
 Theorem C42_BitField_equiv : forall key args, same (MBitField key args).
 Proof. exact (BitField_equiv F ff fpos). Qed.
-
-Theorem C42_Scan_equiv : forall cursor mtch count, same (MScan cursor mtch count).
-Proof. exact (Scan_equiv F ff fpos). Qed.
-
-Theorem C42_ScanType_equiv : forall cursor mtch count typ, same (MScanType cursor mtch count typ).
-Proof. exact (ScanType_equiv F ff fpos). Qed.
-
-Theorem C42_KScan_equiv : forall w key cursor mtch count, same (MKScan w key cursor mtch count).
-Proof. exact (KScan_equiv F ff fpos). Qed.
 
 Theorem C42_MemoryUsage_equiv : forall key samples, same (MMemoryUsage key samples).
 Proof. exact (MemoryUsage_equiv F ff fpos). Qed.
@@ -152,9 +140,6 @@ Proof. exact (FunctionLoad_equiv F ff fpos). Qed.
 Theorem C42_ClientKillByFilter_equiv : forall keys, same (MClientKillByFilter keys).
 Proof. exact (ClientKillByFilter_equiv F ff fpos). Qed.
 
-Theorem C42_ACLLog_equiv : forall count, same (MACLLog count).
-Proof. exact (ACLLog_equiv F ff fpos). Qed.
-
 
 (** ---- known differences, exactly characterised ---- *)
 
@@ -225,6 +210,15 @@ Proof.
   apply C42_ZRangeArgs_characterised in H. destruct H as [H|H]; vm_compute in H; discriminate.
 Qed.
 
+(** GetEx: go-redis sends GETEX key PERSIST for a zero expiration (the doc comment of the adapter says so too), the
+    adapter sends a plain GETEX key; pinned by rueidiscompatmock/adapter_test.go TestStringCommands. *)
+Theorem C42_GetEx_equiv_partial : forall key exp, exp <> 0 -> same (MGetEx key exp).
+Proof. exact (GetEx_equiv F ff fpos). Qed.
+Theorem C42_GetEx_characterised : forall key exp, same (MGetEx key exp) <-> exp <> 0.
+Proof. exact (GetEx_iff F ff fpos). Qed.
+Theorem C42_GetEx_refuted : exists key exp, ~ same (MGetEx key exp).
+Proof. exists (bs "k"), 0. exact (GetEx_zero_differs F ff fpos (bs "k")). Qed.
+
 (** XRead / XReadGroup (Block) and XClaim / XClaimJustID (MinIdle): the adapter uses formatMs, which rounds a
     positive duration below one millisecond up to 1; go-redis computes int64(d / time.Millisecond) = 0
     (BLOCK 0 blocks for ever). *)
@@ -261,6 +255,22 @@ Proof. exact (LMPop_equiv F ff fpos). Qed.
 Theorem C42_BLMPop_equiv_partial : forall timeout dir count keys, 0 < count -> same (MBLMPop timeout dir count keys).
 Proof. exact (BLMPop_equiv F ff fpos). Qed.
 
+(** SCAN family (Scan, ScanType, SScan, HScan, HScanNoValues, ZScan): the adapter prints the cursor with
+    FormatInt(int64(cursor)), go-redis as an unsigned number; the same digits below 2^63. Above, the adapter sends the
+    two's-complement negative spelling; whether Redis reads that as the same cursor depends on its version
+    (strtoul accepts it, string2ull does not), so nothing is claimed there. *)
+Theorem C42_Scan_equiv_partial : forall cursor mtch count, (cursor < 2 ^ 63)%N -> same (MScan cursor mtch count).
+Proof. exact (Scan_equiv F ff fpos). Qed.
+Theorem C42_ScanType_equiv_partial : forall cursor mtch count typ, (cursor < 2 ^ 63)%N -> same (MScanType cursor mtch count typ).
+Proof. exact (ScanType_equiv F ff fpos). Qed.
+Theorem C42_KScan_equiv_partial : forall w key cursor mtch count, (cursor < 2 ^ 63)%N -> same (MKScan w key cursor mtch count).
+Proof. exact (KScan_equiv F ff fpos). Qed.
+
+(** ACLLog: go-redis leaves the count out unless it is positive (certainty of the specification: moderate), the
+    adapter always sends it. Claimed for count > 0. *)
+Theorem C42_ACLLog_equiv_partial : forall count, 0 < count -> same (MACLLog count).
+Proof. exact (ACLLog_equiv F ff fpos). Qed.
+
 (** ---- every listed method, all arguments in the claimed domain ---- *)
 Theorem C42_all_methods : forall c, in_domain F c -> same c.
 Proof. exact (all_methods_equiv F ff fpos). Qed.
@@ -271,7 +281,6 @@ Print Assumptions C42_Set_equiv.
 Print Assumptions C42_SetEX_equiv.
 Print Assumptions C42_SetNX_equiv.
 Print Assumptions C42_SetXX_equiv.
-Print Assumptions C42_GetEx_equiv.
 Print Assumptions C42_Expire_equiv.
 Print Assumptions C42_PExpire_equiv.
 Print Assumptions C42_ExpireAt_equiv.
@@ -281,9 +290,6 @@ Print Assumptions C42_Restore_equiv.
 Print Assumptions C42_BitCount_equiv.
 Print Assumptions C42_BitPos_equiv.
 Print Assumptions C42_BitField_equiv.
-Print Assumptions C42_Scan_equiv.
-Print Assumptions C42_ScanType_equiv.
-Print Assumptions C42_KScan_equiv.
 Print Assumptions C42_MemoryUsage_equiv.
 Print Assumptions C42_LPos_equiv.
 Print Assumptions C42_LPosCount_equiv.
@@ -309,7 +315,6 @@ Print Assumptions C42_GeoSearchLocation_equiv.
 Print Assumptions C42_GeoSearchStore_equiv.
 Print Assumptions C42_FunctionLoad_equiv.
 Print Assumptions C42_ClientKillByFilter_equiv.
-Print Assumptions C42_ACLLog_equiv.
 Print Assumptions C42_SetArgs_equiv_partial.
 Print Assumptions C42_SetArgs_characterised.
 Print Assumptions C42_SetArgs_refuted.
@@ -338,6 +343,13 @@ Print Assumptions C42_BitPosSpan_equiv_partial.
 Print Assumptions C42_LMPop_equiv_partial.
 Print Assumptions C42_BLMPop_equiv_partial.
 Print Assumptions C42_all_methods.
+Print Assumptions C42_GetEx_equiv_partial.
+Print Assumptions C42_GetEx_characterised.
+Print Assumptions C42_GetEx_refuted.
+Print Assumptions C42_Scan_equiv_partial.
+Print Assumptions C42_ScanType_equiv_partial.
+Print Assumptions C42_KScan_equiv_partial.
+Print Assumptions C42_ACLLog_equiv_partial.
 
 (** non-vacuity: with floats printed by the harness (F := bytes * bool), a ZADD with GT CH and two members
     (unbounded list instance) and a transaction-free SETNX with a sub-second TTL: both sides send a command and
